@@ -47,6 +47,25 @@ Example resolve_meta_only_cbin :
 Proof. vm_compute. auto. Qed.
 
 (* ---------------------------------------------------------------------- *)
+(* Meta-less flat binary handed to Reader(...) with nothing else: the channel
+   count is guessed from the file size.  A 384-channel int16 file is always
+   recognised; a 385-channel file is recognised (with one sync channel) unless
+   its sample count is a multiple of 384 — then 768 divides the size too and it
+   is taken for 384 channels x 385 n / 384 samples (exact truth of the
+   heuristic; the harness confirms it on the real constructor).              *)
+Theorem C02_flat_guess : forall n, 1 <= n ->
+  flat_guess (2 * n * 384) = Some (384, n, 0) /\
+  flat_guess (2 * n * 385) =
+    (if n mod 384 =? 0 then Some (384, 385 * (n / 384), 0) else Some (385, n, 1)).
+Proof. intros n Hn. split; [exact (flat_guess_384 n Hn)|exact (flat_guess_385 n Hn)]. Qed.
+Print Assumptions C02_flat_guess.
+
+Example flat_guess_example :
+  flat_guess (2 * 3 * 385) = Some (385, 3, 1) /\ flat_guess (2 * 384 * 385) = Some (384, 385, 0) /\
+  flat_guess (2 * 11 * 3) = None.
+Proof. vm_compute. auto. Qed.
+
+(* ---------------------------------------------------------------------- *)
 (* compress_file (tree at 746882f: stream -> x.cbin_tmp, header -> x.ch_tmp,
    then rename header, rename stream, unlink source).  Source x.bin complete;
    anything else arbitrary (stale pair, stale temporaries).
